@@ -21,26 +21,29 @@ Theorem C08_no_deadlock : forall ths s,
 Proof. exact no_deadlock. Qed.
 Print Assumptions C08_no_deadlock.
 
-(** Every footprint the translator extracted from /repo/src (all public methods of ProgressBar
-    and MultiProgress, drop/clone, the internal pieces) is Ordered for every instance of bar /
-    multi / ticker ids, and so is every path through it (every thinning: deletion of balanced
-    segments = branches not taken, early return/break); the ticker thread's program (any number
-    of loop bodies) is Ordered and a legal worker.  A lock-order swap in the Rust source changes
-    gen/LockFootprints.v and breaks this proof. *)
+(** Every PATH of every structured program the translator extracted from /repo/src (all public
+    methods of ProgressBar, MultiProgress, WeakProgressBar and ProgressDrawTarget, drop/clone, the
+    internal pieces; every choice of alternatives, every number of loop iterations, every early
+    exit) is Ordered, for every instance of bar / multi / ticker ids; every path of the ticker
+    thread's program is Ordered and a legal worker.  A lock-order swap in the Rust source changes
+    gen/LockFootprints.v and breaks this proof; a rewrite that keeps every path Ordered does not
+    (the flat linearisation [all_footprints] is only a checked view: C08_tables_agree). *)
 Theorem C08_footprints_ordered :
-  (forall name p, In (name, p) all_footprints ->
-     forall b m k q, Thin (map (inst b m k) p) q -> Ordered q) /\
-  (forall b m k n, Ordered (repeat_list n (map (inst b m k) ticker_body)) /\
-                   worker_ok (repeat_list n (map (inst b m k) ticker_body)) = true).
-Proof. exact footprints_ordered. Qed.
+  (forall name p, In (name, p) all_programs -> forall tr, paths p tr ->
+     cordered tr = true /\ forall b m k, Ordered (map (inst b m k) tr)) /\
+  (forall tr, paths ticker_prog tr ->
+     forall b m k, Ordered (map (inst b m k) tr) /\ worker_ok (map (inst b m k) tr) = true).
+Proof. exact footprints_ordered_paths. Qed.
 Print Assumptions C08_footprints_ordered.
 
-(** The order is derived, not assumed: the only nestings that occur in the generated footprints
-    are Slot -> Stop and Bar -> Multi. *)
+(** The order is derived, not assumed: on every path of every generated program the only nestings
+    (held class, acquired class) are Slot -> Stop and Bar -> Multi - and both occur. *)
 Theorem C08_nesting_derived :
-  cdedup (concat (map (fun x : String.string * list caction => cnest_from [] (snd x)) all_footprints))
-  = [(CSlot, CStop); (CBar, CMulti)].
-Proof. exact generated_nesting. Qed.
+  (forall name p, In (name, p) all_programs -> forall tr, paths p tr ->
+     forall x r, In (x, r) (cnest_from [] tr) -> (x, r) = (CSlot, CStop) \/ (x, r) = (CBar, CMulti)) /\
+  (exists name p tr, In (name, p) all_programs /\ paths p tr /\
+     In (CSlot, CStop) (cnest_from [] tr) /\ In (CBar, CMulti) (cnest_from [] tr)).
+Proof. exact nesting_derived_paths. Qed.
 Print Assumptions C08_nesting_derived.
 
 (** Regression witness (D9, fixed by 68f1e2d): update() as it was (bar state, then ticker slot)
@@ -55,12 +58,22 @@ Theorem C08_old_update_deadlocks :
 Proof. exact old_update_deadlocks. Qed.
 Print Assumptions C08_old_update_deadlocks.
 
-(** What the ticker automaton takes for granted about the code, checked on the generated table:
-    Ticker::stop = lock Stop, set the flag, unlock, notify_one; Ticker::drop = stop, then join;
-    the ticker's condvar wait is the tail of its loop body and holds only Stop; every
-    finish*/abandon* ends with: release the bar state, then stop the ticker under the slot lock. *)
-Theorem C08_stop_protocol_generated : stop_protocol_ok all_footprints ticker_body = true.
-Proof. exact generated_stop_protocol. Qed.
+(** What the ticker automaton takes for granted about the code, on ALL PATHS of the generated
+    programs: the only path of Ticker::stop is lock Stop, set the flag, unlock, notify_one;
+    Ticker::drop is stop and then (when it has the handle) join; every path of every
+    finish*/abandon* method ends with: release the bar state, lock the slot, (when a ticker is
+    installed: stop it), unlock the slot.  (That every condvar wait of the ticker holds exactly the
+    Stop mutex is part of Ordered: C08_footprints_ordered.) *)
+Theorem C08_stop_protocol_generated :
+  (exists p, pg_lookup Ticker_stop_name all_programs = Some p /\
+     forall tr, paths p tr -> list_eqb caction_eqb tr stop_fp = true) /\
+  (exists p, pg_lookup Ticker_drop_name all_programs = Some p /\
+     forall tr, paths p tr ->
+       list_eqb caction_eqb tr (stop_fp ++ [CJoin]) || list_eqb caction_eqb tr stop_fp = true) /\
+  (forall n, In n finish_names ->
+     exists p, pg_lookup n all_programs = Some p /\
+       forall tr, paths p tr -> ends_with wake_fp tr || ends_with noticker_wake_fp tr = true).
+Proof. exact stop_protocol_paths. Qed.
 Print Assumptions C08_stop_protocol_generated.
 
 (** Ticker lifecycle (automaton of TickerControl::run in an arbitrary environment; the answer of
@@ -107,7 +120,10 @@ Print Assumptions C08_finished_not_ticked.
     reaches the end of run() within 10 of its own steps, for every time-out oracle and without
     any wake-up event; a finished thread enables the Join step of the lock model.
     PARTIAL: that the other threads release those mutexes is C08_no_deadlock plus scheduler
-    fairness, which is not modelled. *)
+    fairness, which is not modelled.  The automaton has no MultiState lock: the real thread also takes
+    it inside state.tick() (draw) and inside drop(arc) when it holds the last reference, so the
+    premise must be read as "bar state, stop AND MultiState lock not held by other threads" (e.g. not
+    inside a MultiProgress::suspend closure); user callbacks run by tick are assumed to return. *)
 Theorem C08_join_terminates_partial :
   (forall os s, treach s -> flag s = true -> owed s = false ->
      barl s <> ByEnv -> stopl s <> ByEnv ->
@@ -117,7 +133,20 @@ Theorem C08_join_terminates_partial :
 Proof. exact join_terminates_reach. Qed.
 Print Assumptions C08_join_terminates_partial.
 
-(** Manual tick() while a ticker is installed (tick_inner: `if self.ticker.lock().is_none()`,
+(** Tie of the one-line model [Locks.tick_inner] to the source (the theorems about it below are
+    DEFINITIONAL - they restate a hand transcription): the generated source pins are literally the
+    bodies of ProgressBar::tick_inner and BarState::tick; in the generated program of
+    ProgressBar::tick the no-tick path "lock the slot, unlock it" exists; and on every path of every
+    generated program BarState::tick (CTick) runs while the bar state is locked. *)
+Theorem C08_tick_transcription :
+  (src_tick_inner = src_tick_inner_expected /\ src_barstate_tick = src_barstate_tick_expected) /\
+  (exists p, pg_lookup ProgressBar_tick_name all_programs = Some p /\ paths p [CAcq CSlot; CRel CSlot]) /\
+  (forall name p, In (name, p) all_programs -> forall tr, paths p tr -> tick_guarded tr = true).
+Proof. exact tick_transcription. Qed.
+Print Assumptions C08_tick_transcription.
+
+(** (Definitional, about the hand-written [tick_inner]; tied to the source by C08_tick_transcription and by
+    the harness cases CManualTick.)  Manual tick() while a ticker is installed (tick_inner: `if self.ticker.lock().is_none()`,
     progress_bar.rs:235-240) leaves the spinner tick unchanged, any number of times; without a
     ticker each call adds one (saturating). *)
 Theorem C08_manual_tick_noop :
@@ -126,7 +155,9 @@ Theorem C08_manual_tick_noop :
 Proof. exact manual_tick_thm. Qed.
 Print Assumptions C08_manual_tick_noop.
 
-(** The ticker redraws without manual ticks: a loop body that is not cut short (live, unfinished
+(** (About the hand-written automaton: "redraw" = the ghost counter [nticks]; no liveness - that time-outs
+    fire and iterations recur is not modelled; frames reaching the terminal are checked by the harness only.)
+    The ticker redraws without manual ticks: a loop body that is not cut short (live, unfinished
     bar, free locks) performs exactly one BarState::tick under the bar lock and ends in the stop
     check; and in every trace the number of ticks is at most the number of iterations begun. *)
 Theorem C08_ticker_ticks_once_per_iteration :
@@ -272,3 +303,15 @@ Proof. exact shared_readers_example. Qed.
 Example C08_paths_example :
   exists p, In (is_finished_name, p) all_programs /\ paths p [CAcq CBar; CRel CBar].
 Proof. exact paths_example. Qed.
+
+(** a pool given by PATHS of generated programs, with spawn and join: thread 0 = enable_steady_tick on the
+    path "no ticker yet: spawn", disable_steady_tick on the path "ticker installed: stop, join", drop of a
+    handle; thread 1 (spawned by thread 0) = one iteration of the ticker program leaving through the early
+    exit "bar finished"; [spawns_ok] is discharged by C08_ticker_paths_worker *)
+Example C08_nonvacuous_WFp :
+  WFp all_programs wfp_pool /\
+  List.length wfp_segs = 3 /\
+  In (Spawn 0 1) (code (nth 0 wfp_pool (wthread []))) /\
+  In (Join 0) (code (nth 0 wfp_pool (wthread []))) /\
+  wfp_ticker_path = [CUpgrade; CAcq CBar; CRel CBar; CDropArc].
+Proof. exact wfp_pool_WFp. Qed.
